@@ -242,6 +242,22 @@ func c39Gen(r *rand.Rand, n int, tier string) []c39In {
 	out = append(out,
 		c39In{Kind: "async", Cap: 0}, c39In{Kind: "async", Cap: -3},
 		c39In{Kind: "async", Cap: 1},
+		// close() in progress (it waits for a writer the harness holds) while the dispatch path
+		// enqueues from another goroutine: the enqueue must return at once, its record is discarded.
+		// Writer inside write, nothing queued:
+		c39In{Kind: "async", Cap: 1, Steps: c39Ops("enq", "close", "enq")},
+		// writer inside write, one record queued (queue full), enqueue twice during the drain:
+		c39In{Kind: "async", Cap: 1, Steps: c39Ops("enq", "enq", "close", "enq", "enq")},
+		// writer inside write, cap records queued, one dropped before close:
+		c39In{Kind: "async", Cap: 3, Steps: c39Ops("enq", "enq", "enq", "enq", "enq", "close", "enq", "done", "enq", "take", "enq")},
+		// writer has committed but not returned to the channel, nothing queued:
+		c39In{Kind: "async", Cap: 2, Steps: c39Ops("enq", "done", "close", "enq")},
+		// writer has committed but not returned, one record queued:
+		c39In{Kind: "async", Cap: 2, Steps: c39Ops("enq", "done", "enq", "close", "enq", "take", "enq")},
+		// two concurrent closes during the drain, then an enqueue:
+		c39In{Kind: "async", Cap: 2, Steps: c39Ops("enq", "enq", "close", "close", "enq", "close")},
+		// parked writer: close returns at once, then enqueue:
+		c39In{Kind: "async", Cap: 1, Steps: c39Ops("close", "enq")},
 		c39In{Kind: "async", Cap: 1, Steps: c39Ops("close")},
 		c39In{Kind: "async", Cap: 1, Steps: c39Ops("close", "close", "enq", "take")},
 		// the scenario of TestAccessLogAsyncReportsDroppedRecords
@@ -399,13 +415,43 @@ type c39AObs struct {
 	Exited   bool    `json:"exited"`
 }
 
+// c39Stuck counts the cases of this run in which some call did not return in
+// time. Every wait in this file is bounded; the first few blocked cases get a
+// generous timeout (so that the smallest failing inputs, which run first, are
+// beyond doubt), after that the implementation is known to be broken and the
+// timeouts shrink so that a run on broken code stays short.
 var c39Stuck int
 
 func c39Timeout() time.Duration {
-	if c39Stuck >= 3 {
+	switch {
+	case c39Stuck >= 10:
+		return 30 * time.Millisecond
+	case c39Stuck >= 3:
 		return 100 * time.Millisecond
 	}
 	return 1500 * time.Millisecond
+}
+
+// c39LockWait bounds how long the harness retries TryLock on the emitter's
+// mutex. Correct code holds it only inside enqueue's and close's short critical
+// sections, so a quarter of a second of failed TryLocks means that somebody
+// sleeps with the mutex held.
+func c39LockWait() time.Duration {
+	switch {
+	case c39Stuck >= 10:
+		return 20 * time.Millisecond
+	case c39Stuck >= 3:
+		return 50 * time.Millisecond
+	}
+	return 250 * time.Millisecond
+}
+
+// c39StormWait bounds the waits of a storm case (tens of thousands of enqueues).
+func c39StormWait() time.Duration {
+	if c39Stuck >= 1 {
+		return 1 * time.Second
+	}
+	return 10 * time.Second
 }
 
 func c39Snap(rec map[string]any) c39Q {
@@ -484,25 +530,34 @@ func c39RunAsync(in c39In) CaseOut {
 	var nextID uint64
 	nEnqOpen, nEnqClosed := 0, 0
 
-	// em.State takes the emitter's mutex; if an enqueue is stuck holding it, fall
-	// back to the last values read instead of hanging the harness.
+	// The drop counter and the closed flag live under the emitter's mutex. They
+	// are read with TryLock, never Lock: if some call sleeps while holding the
+	// mutex (a blocked enqueue, a close that waits for the drain with the mutex
+	// held) the harness must not hang on it. After one bounded wait per case the
+	// mutex is taken to be held (muHeld): later reads cost a single TryLock and
+	// fall back to the last values read; the case goes on, so that the next
+	// enqueue shows whether the dispatch path blocks on that mutex.
 	var lastP int64
 	var lastC bool
+	muHeld := false
 	state := func() (int64, bool) {
-		type pc struct {
-			p int64
-			c bool
+		if p, c, ok := em.TryState(); ok {
+			lastP, lastC, muHeld = p, c, false
+			return p, c
 		}
-		ch := make(chan pc, 1)
-		go func() { p, c := em.State(); ch <- pc{p, c} }()
-		select {
-		case v := <-ch:
-			lastP, lastC = v.p, v.c
-		case <-time.After(c39Timeout()):
-			if stuck == "" {
-				stuck = "state-unreadable"
+		if muHeld || stuck != "" {
+			return lastP, lastC
+		}
+		deadline := time.Now().Add(c39LockWait())
+		for time.Now().Before(deadline) {
+			time.Sleep(20 * time.Microsecond)
+			if p, c, ok := em.TryState(); ok {
+				lastP, lastC = p, c
+				return p, c
 			}
 		}
+		muHeld = true
+		tags["mutex-held-across-a-wait"] = true
 		return lastP, lastC
 	}
 	observe := func(en bool) {
@@ -558,6 +613,10 @@ func c39RunAsync(in c39In) CaseOut {
 			if closeCalled {
 				nEnqClosed++
 				tags["enq-after-close"] = true
+				if !em.Exited() {
+					// close() is still waiting for the writer: the enqueue runs concurrently with it
+					tags["enq-during-close"] = true
+				}
 			} else {
 				nEnqOpen++
 				if held && em.QueueLen() > 0 {
@@ -573,6 +632,9 @@ func c39RunAsync(in c39In) CaseOut {
 			case <-time.After(c39Timeout()):
 				rets = append(rets, false)
 				stuck = "enqueue-blocked"
+				if closeCalled && !em.Exited() {
+					tags["enqueue-blocked-during-close"] = true
+				}
 			}
 			if stuck != "" {
 				emit(st, id, true)
@@ -636,7 +698,9 @@ func c39RunAsync(in c39In) CaseOut {
 				go func() { em.Close(); close(closeRet) }()
 				deadline := time.Now().Add(c39Timeout())
 				for {
-					if _, c := state(); c {
+					if _, c := state(); c || muHeld {
+						// muHeld: close() sleeps with the mutex held; it has the lock, so
+						// its critical section is under way. Go on with the schedule.
 						break
 					}
 					if time.Now().After(deadline) {
@@ -658,6 +722,9 @@ func c39RunAsync(in c39In) CaseOut {
 				return
 			}
 			tags["close-again"] = true
+			if !em.Exited() {
+				tags["close-during-close"] = true
+			}
 			returned := make(chan struct{})
 			go func() { em.Close(); close(returned) }()
 			ok := true
@@ -734,6 +801,15 @@ func c39RunAsync(in c39In) CaseOut {
 			"written": w, "sum_dropped_records": sumStamps, "pending_drops": pending, "exited": exited, "trace": trace, "stuck": stuck}}
 }
 
+func startClosed(ch chan struct{}) bool {
+	select {
+	case <-ch:
+		return true
+	default:
+		return false
+	}
+}
+
 func c39OpTerm(st c39Step, id uint64) string {
 	switch st.Op {
 	case "enq":
@@ -789,8 +865,13 @@ func c39RunStorm(in c39In) CaseOut {
 		mu.Unlock()
 	}
 	nWritten := func() int { mu.Lock(); defer mu.Unlock(); return len(written) }
+	stuck := ""
 	waitFor := func(cond func() bool) bool {
-		deadline := time.Now().Add(10 * time.Second)
+		d := c39StormWait()
+		if stuck != "" {
+			d = 200 * time.Millisecond
+		}
+		deadline := time.Now().Add(d)
 		for !cond() {
 			if time.Now().After(deadline) {
 				return false
@@ -804,12 +885,19 @@ func c39RunStorm(in c39In) CaseOut {
 	if err != nil {
 		panic(err)
 	}
-	stuck := ""
-	em.Enqueue(map[string]any{"id": uint64(0)})
+	firstRet := make(chan struct{})
+	go func() { em.Enqueue(map[string]any{"id": uint64(0)}); close(firstRet) }()
 	select {
-	case <-entered:
-	case <-time.After(10 * time.Second):
-		stuck = "writer-did-not-take"
+	case <-firstRet:
+	case <-time.After(c39StormWait()):
+		stuck = "enqueue-blocked"
+	}
+	if stuck == "" {
+		select {
+		case <-entered:
+		case <-time.After(c39StormWait()):
+			stuck = "writer-did-not-take"
+		}
 	}
 	returned := int64(0)
 	var wg sync.WaitGroup
@@ -825,33 +913,67 @@ func c39RunStorm(in c39In) CaseOut {
 			}
 		}()
 	}
-	close(start)
 	done := make(chan struct{})
 	go func() { wg.Wait(); close(done) }()
-	select {
-	case <-done:
-	case <-time.After(20 * time.Second):
-		stuck = "enqueue-blocked"
+	if stuck == "" {
+		close(start)
+		select {
+		case <-done:
+		case <-time.After(2 * c39StormWait()):
+			stuck = "enqueue-blocked"
+		}
 	}
 	close(gate)
 	if stuck == "" && !waitFor(func() bool { return nWritten() >= 1+in.Cap && em.QueueLen() == 0 }) {
 		stuck = "writer-did-not-drain"
 	}
 	if stuck == "" {
-		em.Enqueue(map[string]any{"id": uint64(2)})
+		flushRet := make(chan struct{})
+		go func() { em.Enqueue(map[string]any{"id": uint64(2)}); close(flushRet) }()
+		select {
+		case <-flushRet:
+		case <-time.After(c39StormWait()):
+			stuck = "enqueue-blocked"
+		}
+	}
+	if stuck == "" {
 		if !waitFor(func() bool { return nWritten() >= 2+in.Cap }) {
 			stuck = "flush-not-written"
 		}
 	}
 	closeRet := make(chan struct{})
 	go func() { em.Close(); close(closeRet) }()
+	closeWait := c39StormWait()
+	if stuck != "" {
+		closeWait = 200 * time.Millisecond
+	}
 	select {
 	case <-closeRet:
-	case <-time.After(10 * time.Second):
-		stuck = "close-blocked"
+	case <-time.After(closeWait):
+		if stuck == "" {
+			stuck = "close-blocked"
+		}
 	}
 	exited := waitFor(em.Exited)
-	pending, _ := em.State()
+	var pending int64
+	for deadline := time.Now().Add(c39LockWait()); ; time.Sleep(20 * time.Microsecond) {
+		if p, _, ok := em.TryState(); ok {
+			pending = p
+			break
+		}
+		if time.Now().After(deadline) {
+			if stuck == "" {
+				stuck = "mutex-held"
+			}
+			break
+		}
+	}
+	if stuck != "" {
+		c39Stuck++
+		if !startClosed(start) {
+			close(start) // let parked workers run to completion
+		}
+	}
 	mu.Lock()
 	w := append([]c39Q(nil), written...)
 	mu.Unlock()
@@ -881,6 +1003,6 @@ func c39RunStorm(in c39In) CaseOut {
 }
 
 func init() {
-	Register("C39", "boundary cases first (FNV vectors; 24 rates incl. -0, 1, NaN, Inf, subnormal, thresholds at a key's hash; queue sizes <= 0; the unit-test schedule, trailing drops, enqueue after close, double close), then 35% sampler runs (1-24 records over a small id pool so keys are shared; rates random / at a key's hash / k/2^32 neighbours / arbitrary bit patterns), 60% async schedules (queue size 1-8, 3-40 atomic steps in burst / catch-up / mixed phases, optional close, rare pre-existing dropped_records), 5% FNV strings; non-trivial = a sampler run with at least one record, an async schedule with at least one enqueue before close, every FNV case; distinct = distinct input JSON",
+	Register("C39", "boundary cases first (FNV vectors; close-in-progress schedules: held writer with 0/1/cap queued records, close from another goroutine, then enqueue, also two concurrent closes; 24 rates incl. -0, 1, NaN, Inf, subnormal, thresholds at a key's hash; queue sizes <= 0; the unit-test schedule, trailing drops, enqueue after close, double close), then 35% sampler runs (1-24 records over a small id pool so keys are shared; rates random / at a key's hash / k/2^32 neighbours / arbitrary bit patterns), 60% async schedules (queue size 1-8, 3-40 atomic steps in burst / catch-up / mixed phases, optional close, rare pre-existing dropped_records), 5% FNV strings; non-trivial = a sampler run with at least one record, an async schedule with at least one enqueue before close, every FNV case; distinct = distinct input JSON",
 		c39Gen, c39Run)
 }
